@@ -1,14 +1,31 @@
 """C02 — vector operators and reductions act element-wise on every vector type."""
 import driver
+import veccore
+import kani_driver
+import os
 from common import vec_unit
 from shapes import VECS
 
 
+def extra(u, sh):
+    n = veccore.add_all_operator_forms(u, sh)
+    veccore.add_reductions_and_maps(u, sh)
+    u.notes = getattr(u, 'notes', []) + ['%s: %d operator impls under contract' % (sh.name, n)]
+
+
 def plan(exp, tier):
     p = driver.Plan('C02')
-    groups = [[v for v in VECS if v.dim <= 4], [v for v in VECS if v.dim in (8, 16)],
+    groups = [[v for v in VECS if v.dim <= 3], [v for v in VECS if v.dim == 4], [v for v in VECS if v.dim in (8, 16)],
               [v for v in VECS if v.dim == 32], [v for v in VECS if v.dim == 64]]
     for k, g in enumerate(groups):
-        u = vec_unit(exp, 'c02_%d' % k, g)
-        p.add_unit('c02_%d' % k, u, ['vec'])
+        u = vec_unit(exp, 'c02_%d' % k, g, ops=('Add', 'Sub', 'Mul', 'Div', 'Rem', 'Shl', 'Shr', 'BitAnd', 'BitOr', 'BitXor'), extra=extra)
+        p.notes += getattr(u, 'notes', [])
+        p.add_unit('c02_%d' % k, u, ['ops', 'vec'])
+    if os.path.exists(os.path.join(kani_driver.KROOT, 'c02', 'harnesses.json')):
+        specs = kani_driver.load_specs('c02')
+        if specs:
+            p.kani = specs
+    p.not_decided += ['the 12 cmp*/partial_cmp* functions and Ord-based min/max/reduce_min/reduce_max (AsRef / Ord on the exact scalar are outside the Verus units): Kani harnesses in /verif/kani/c02 when present',
+                      'from_slice / FromIterator (loop over an iterator) and From<[T;N]> (unsafe): Kani under C18',
+                      'apply2 / apply3 / zip, Sum / Product impls, is_any_negative / are_all_positive, sqrt/rsqrt/recip/ceil/floor/round']
     return p
